@@ -217,6 +217,32 @@ func addFlag(p *Prog, f string) {
 // flagBoundary records what a template node between before and after (both static template text, after up to the
 // next template node) means for the known-deviation zones.
 func flagBoundary(p *Prog, before, after string) {
+	flagBoundary1(p, before, after)
+	// the same with the neighbouring template nodes looked through (they may render nothing)
+	if b, a := staticOnly(before), staticOnly(after); b != before || a != after {
+		flagBoundary1(p, b, a)
+	}
+}
+
+// staticOnly removes the template nodes from a piece of template text.
+func staticOnly(s string) string {
+	var b strings.Builder
+	for {
+		i := strings.Index(s, "{{")
+		if i < 0 {
+			b.WriteString(s)
+			return b.String()
+		}
+		b.WriteString(s[:i])
+		j := strings.Index(s[i:], "}}")
+		if j < 0 {
+			return b.String()
+		}
+		s = s[i+j+2:]
+	}
+}
+
+func flagBoundary1(p *Prog, before, after string) {
 	if e := strings.Index(after, "{{"); e >= 0 {
 		after = after[:e]
 	}
@@ -403,9 +429,8 @@ func Region(t *rapid.T, p *Prog) {
 // flagAssembled: the static texts inside the inserted node (branch bodies), repeated up to twice (loop iterations),
 // complete a comment end together with the text around the node: the same K-cmt zone as a split comment end.
 func flagAssembled(p *Prog, before, node, after string) {
-	if e := strings.Index(after, "{{"); e >= 0 {
-		after = after[:e]
-	}
+	// (other template nodes between the texts are looked through: they may all render nothing)
+	before, after = staticOnly(before), staticOnly(after)
 	var bodies []string
 	rest := node
 	for {
